@@ -237,3 +237,23 @@ CHECKS["C07"] = {
         "generator, so a second describe() of a MatchesDict mismatch is empty." + TRUSTED
     ),
 }
+
+CHECKS["C06"] = {
+    "technique": "nullness abstract interpretation with symbolic component verdicts + return-kind inference + alias/mutation analysis + table algebra",
+    "text": (
+        "For each combinator the match body is interpreted abstractly with every component verdict a fresh symbolic "
+        "value in {None, Mismatch}, verdict collections abstracted by (contains-None, contains-Mismatch) and loops run "
+        "to a fixed point; on every abstract path the nullness of the result equals the declared truth function of "
+        "the verdicts drawn (negation, identity, exists, for-all) and early exits occur only in the direction that "
+        "function allows -- independent of the number of components. Return-kind inference shows every match() of the "
+        "49 matcher classes returns None, a Mismatch or a delegate's verdict; the dict-matcher factory tables satisfy "
+        "exact = super U sub; no mismatch class can be falsy (so truthiness and `is None` tests agree); match bodies "
+        "store nothing on self and mutate neither matcher state nor matchee; no verdict is selected by first match "
+        "over a hash-ordered set (found MatchesSetwise, fixed); %-formats of a matchee are tuple-safe."
+    ),
+    "note": (
+        "Not decided (runtime values): leaf predicates (comparisons, regex, doctest, filesystem, SameMembers "
+        "arithmetic, MatchesException class logic, the Raises propagation rule) and that a maximum matching is "
+        "found by MatchesSetwise. Assumes component matchers obey the protocol themselves." + TRUSTED
+    ),
+}
